@@ -5,14 +5,14 @@ CONSTANTS
   FAMS = {"alias"}
   TYPES = {"hash", "hset", "ivec", "list", "str"}
   DEPTH = 1
-  KINDS0 = {"G", "P", "L", "M", "B", "C", "EL", "EP", "EV", "EI", "EH", "ES", "K", "WL", "WM"}
-  KINDS1 = {"G", "L", "M", "B", "C", "EL", "EP", "EV", "EI", "EH", "ES", "K", "WL", "WM"}
+  KINDS0 = {"G", "P", "L", "M", "B", "C", "EL", "EP", "EV", "EI", "EH", "ES", "EM", "S", "PR", "K", "WL", "WM"}
+  KINDS1 = {"G", "L", "M", "B", "C", "EL", "EP", "EV", "EI", "EH", "ES", "EM", "S", "PR", "K", "WL", "WM"}
   KINDSR = {}
   KEEP1 = 1000
   KEEP2 = 1000
   KEEPR = 1000
   SEED = 1
-  VIAS = {"d", "f", "g", "k"}
+  VIAS = {"d", "f", "g", "a", "m", "k"}
   ACTS = {"share", "upd", "upd2"}
   MAXBASE = 1
   MAXLEN = 6
